@@ -20,3 +20,23 @@ mod c08;
 mod c13;
 #[cfg(kani)]
 mod c19;
+#[cfg(kani)]
+mod agentworld;
+#[cfg(kani)]
+mod agentsteps;
+#[cfg(kani)]
+mod agenth;
+#[cfg(kani)]
+mod c14;
+#[cfg(kani)]
+mod c09;
+#[cfg(kani)]
+mod c12;
+#[cfg(kani)]
+mod c04;
+#[cfg(kani)]
+mod builder;
+#[cfg(kani)]
+mod c16;
+#[cfg(all(kani, verif_native))]
+mod smtreplay;
